@@ -16,6 +16,7 @@ EXPLANATION = (
     ' The dispatch fold also checks what the combinators are applied to (inputs with only nb erased).'
     ' Third round: N / NP ruled out on every result path of backward crossed composition; the meaning of _is_punct (truth table and the lettered names it accepts, read through module constants and imports); Functor.__xor__ as used by scan for twice-bound variables.'
     ' Fourth round: every rule that is not a unification schema (conjunction, punctuation, quote / bracket, the comma type-changing rules) yields its result exactly when its premises hold, judged as a decision function over its elementary tests (R3.4 decision).'
+    ' Fifth round: the bindings reader replaces bound features as a whole and nothing else; every shared variable position is tested, independently of earlier bindings.'
 )
 TRUSTED = ['CPython ast', 'schema table in sa/rules_grammar.py (from the property statement)', 'independent pattern parser sa/symcat.py']
 
